@@ -225,9 +225,26 @@ def classify(probs, text, res, by, root):
                         zero.add(x.get("rename") or x["ident"])
                 for x in ty:
                     zero_in(x)
-        for d in reach(by, root):
+        over_param = [False]
+
+        def has_param(ty):
+            return isinstance(ty, (list, tuple)) and ((len(ty) >= 1 and ty[0] == "param") or any(has_param(x) for x in ty))
+
+        def zero_param(ty):
+            if isinstance(ty, (list, tuple)):
+                if len(ty) == 3 and ty[0] == "array" and ty[1] == 0 and has_param(ty[2]):
+                    over_param[0] = True
+                for x in ty:
+                    zero_param(x)
+        reached = reach(by, root)
+        for d in reached:
             for f in (d["fields"] if d["kind"] == "struct" else [f for v in d["variants"] for f in v["fields"]]):
                 zero_in(f.get("as_") or f["ty"])
+                zero_param(f.get("as_") or f["ty"])
+        if over_param[0]:
+            # a zero-length array over a type parameter: whatever is supplied for it is visited (approximated by what is reachable at all)
+            for x in reached:
+                zero.add(x.get("rename") or x["ident"])
         if unused and unused <= zero:
             return "zero_length_array_element"
     return None
